@@ -23,18 +23,40 @@ members in scope (independent oracle, the same declaration on a fresh object, th
 bytes of every member value must parse - as scalar, `E(int)`, structure field, array element, bit-field; interpreted / compiled /
 aligned; both endiannesses; 11 underlying types and the default type - to an object equal to exactly the members declared with that
 value, named like one of them, that dumps back to the bytes.
+
+Operator-mix probes (harness/v8_c12.py) for "explicit values may be expressions over earlier members" + "number members like C": member
+initialisers that MIX OPERATORS OF DIFFERENT PRECEDENCE WITHOUT PARENTHESES over earlier members, constants and literals (decimal, hex,
+octal, binary spelling; varying spacing) - shifts with + and -, * / % with + -, & ^ | with shifts and with each other, unary ~ and -
+(`B = A << 2 + 1`, `C = B + 1 << 2`, `D = 1 | 2 << 1`, `E = ~A & 0xF`); all 15 pairs of the six binary precedence levels are drawn, and
+candidates whose value depends on the ranking of neighbouring levels are preferred (the histogram names which wrong rankings each run
+tells apart).  The member table must be the C numbering computed by an evaluator written from the C grammar (recursive descent, one
+function per level, C's truncating division) that shares nothing with the library and is itself cross-checked on every initialiser
+against a table-driven evaluator, Python's grammar and `oracle_numbering`; the same declaration with C's grouping written out in
+parentheses must give the same table; every member value's underlying bytes must parse - scalar, `E(int)`, structure field, array
+element, bit-field; interpreted / compiled / aligned; both endiannesses; 11 underlying types and the default type - to an object equal
+to exactly the members declared with that value, named like one of them, that dumps back to the bytes; Lean fold correspondence.
+Excluded there (reported): `/` and `%` with a negative operand - the library floors where C truncates (see harness/v8_c12.py).
 """
 from __future__ import annotations
 
-from .. import common, impl, t3_c12, v4_c12
+import re
+
+from .. import common, impl, t3_c12, v4_c12, v8_c12
 from ..common import A, Case, Result, mkrng, parse_sexp, run_driver, sx
 
 BASES = {"uint8": (1, False), "int8": (1, True), "uint16": (2, False), "int16": (2, True), "uint32": (4, False), "int32": (4, True),
          "uint64": (8, False), "int64": (8, True), "uint24": (3, False), "int24": (3, True), "uint128": (16, False)}
 
 
+_OCTAL = re.compile(r"(?<![\w.])0+([0-7]+)\b")
+
+
 def oracle_numbering(is_flag, members, consts):
-    """C rule: implicit = previous + 1 (enum) / next power of two above the previous value's top bit (flag)"""
+    """C rule: implicit = previous + 1 (enum) / next power of two above the previous value's top bit (flag).
+    Explicit values are handed to Python's own expression grammar, which ranks | ^ & << >> + - * / % and the unary operators exactly
+    like C and shares nothing with the library (C's octal literals are respelt for it; `/` is floor division, which is C's division
+    only for operands >= 0 - the generators of this module never divide negative values; harness/v8_c12.py has the evaluator with C's
+    arithmetic and cross-checks this function against it)."""
     nxt = 1 if is_flag else 0
     vals = {}
     for name, ex in members:
@@ -43,7 +65,7 @@ def oracle_numbering(is_flag, members, consts):
         else:
             env = dict(consts)
             env.update(vals)
-            v = eval(ex.replace("/", "//"), {"__builtins__": {}}, env)  # noqa: S307 - generated arithmetic only
+            v = eval(_OCTAL.sub(r"0o\1", ex).replace("/", "//"), {"__builtins__": {}}, env)  # noqa: S307 - generated arithmetic only
         vals[name] = v
         if is_flag:
             p = 1
@@ -87,7 +109,14 @@ def run(env) -> Result:
                 "with later members referring to those earlier members or continuing from them: member table = C numbering with the "
                 "declaration's own members in scope = table on a fresh object = Lean fold; every member value parses (scalar, E(int), struct "
                 "field, array element, bit-field; interpreted/compiled/aligned) to an object equal to exactly its members, named like one, "
-                "dumping back to the bytes. distinct = (declaration, value); non-trivial = >= 2 members")
+                "dumping back to the bytes; declarations whose member initialisers mix operators of different precedence without parentheses "
+                "(all pairs of the levels | ^ & shift additive multiplicative, unary ~ -, over earlier members, constants and literals in "
+                "decimal/hex/octal/binary spelling, varying spacing): member table = C numbering by an independent recursive-descent evaluator of "
+                "the C grammar (cross-checked against a table-driven evaluator, Python's grammar and oracle_numbering) = table of the same "
+                "declaration with C's grouping in parentheses = Lean fold; every member value parses (scalar, E(int), struct field, array "
+                "element, bit-field; interpreted/compiled/aligned) to an object equal to exactly its members, named like one, dumping back "
+                "to the bytes; excluded: / and % with a negative operand (library floors, C truncates). "
+                "distinct = (declaration, value); non-trivial = >= 2 members")
     dc = impl.dc()
     rnd = mkrng(env["seed"], "c12")
     tier = env["tier"]
@@ -183,6 +212,8 @@ def run(env) -> Result:
     t3_c12.alias_probes(mkrng(env["seed"], "c12-alias"), res, viol, dc, tier, oracle_numbering)
     # members named like constants the object already holds: the members declared so far win (own PRNG stream)
     v4_c12.shadow_probes(mkrng(env["seed"], "c12-shadow"), res, viol, dc, tier, oracle_numbering, lines, metas)
+    # initialisers that mix operators of different precedence without parentheses: the C grammar decides the value (own PRNG stream)
+    v8_c12.opmix_probes(mkrng(env["seed"], "c12-opmix"), res, viol, dc, tier, oracle_numbering, lines, metas)
     # cross-class comparisons: never equal, whatever the kinds and values
     for _ in range(200 if tier == "quick" else 3000):
         (E1, f1, b1, _, i1), (E2, f2, b2, _, i2) = rnd.sample(classes, 2) if len(classes) >= 2 else (classes[0], classes[0])
